@@ -43,6 +43,9 @@ impl Clone for Uri {
 impl Clone for PathBuf {
     #[verifier::external_body] fn clone(&self) -> (r: Self) ensures r == *self { unimplemented!() }
 }
+impl Clone for LuaParseError {
+    #[verifier::external_body] fn clone(&self) -> (r: Self) ensures r == *self { unimplemented!() }
+}
 impl Default for NodeCache {
     #[verifier::external_body] fn default() -> Self { unimplemented!() }
 }
@@ -121,14 +124,21 @@ pub open spec fn cur_cfg(v: &Vfs) -> ParseCfg {
     sp_cfg(&*v.emmyrc->0)
 }
 
+/// `t` is the parse of `text` under SOME configuration (the one that was current when the text was submitted;
+/// `update_config` does not re-parse, so "under the current configuration" is not an invariant)
+pub open spec fn tree_of_text(t: LuaSyntaxTree, text: Seq<char>) -> bool {
+    exists|c: ParseCfg| t == #[trigger] sp_tree(text, c)
+}
+
 /// Representation invariant (from the property, not from the code): a file with a text has the line
-/// index parsed from exactly that text and has a tree; a file without a text has neither.
+/// index parsed from exactly that text and a tree parsed from exactly that text; a file without a text has neither.
 pub open spec fn vfs_wf(v: &Vfs) -> bool {
     forall|f: FileId| #![trigger has_content(v, f)] #![trigger v.line_index_map@.contains_key(f)] #![trigger v.tree_map@.contains_key(f)]
         if has_content(v, f) {
             &&& v.line_index_map@.contains_key(f)
             &&& v.line_index_map@[f] == sp_line_index(content_of(v, f))
             &&& v.tree_map@.contains_key(f)
+            &&& tree_of_text(v.tree_map@[f], content_of(v, f))
         } else {
             &&& !v.line_index_map@.contains_key(f)
             &&& !v.tree_map@.contains_key(f)
@@ -208,12 +218,70 @@ pub proof fn lemma_alloc_keeps_wf(o: &Vfs, n: &Vfs, r: FileId)
             &&& n.line_index_map@.contains_key(f)
             &&& n.line_index_map@[f] == sp_line_index(content_of(n, f))
             &&& n.tree_map@.contains_key(f)
+            &&& tree_of_text(n.tree_map@[f], content_of(n, f))
         } else {
             &&& !n.line_index_map@.contains_key(f)
             &&& !n.tree_map@.contains_key(f)
         }) by {
         assert(has_content(o, f) == has_content(n, f));
         if has_content(n, f) { assert(content_of(o, f) == content_of(n, f)); }
+    }
+}
+
+/// the id-allocation invariant implies the precondition of `get_document` (its Vec index is guarded by the path lookup)
+pub proof fn lemma_ids_ok_guards_document(v: &Vfs, id: FileId)
+    requires vfs_ids_ok(v),
+    ensures v.file_path_map@.contains_key(id.id) ==> (id.id as int) < v.file_data@.len(),
+{}
+
+/// file `fid` itself is consistent in `n` (text + the line index of that text + a tree, or none of them)
+/// and every other file is as in `o`
+pub open spec fn update_ok(o: &Vfs, n: &Vfs, fid: FileId) -> bool {
+    &&& others_untouched(o, n, fid)
+    &&& has_content(n, fid) ==> n.line_index_map@.contains_key(fid) && n.tree_map@.contains_key(fid)
+            && n.line_index_map@[fid] == sp_line_index(content_of(n, fid))
+            && tree_of_text(n.tree_map@[fid], content_of(n, fid))
+    &&& !has_content(n, fid) ==> !n.line_index_map@.contains_key(fid) && !n.tree_map@.contains_key(fid)
+}
+/// such an update preserves the representation invariant. (Stated as an implication so that a call site
+/// never fails on the lemma: a broken update fails the labelled postconditions instead.)
+pub proof fn lemma_update_keeps_wf(o: &Vfs, n: &Vfs, fid: FileId)
+    ensures vfs_wf(o) && update_ok(o, n, fid) ==> vfs_wf(n),
+{
+    if vfs_wf(o) && update_ok(o, n, fid) { lemma_update_keeps_wf_(o, n, fid); }
+}
+proof fn lemma_update_keeps_wf_(o: &Vfs, n: &Vfs, fid: FileId)
+    requires vfs_wf(o), update_ok(o, n, fid),
+    ensures vfs_wf(n),
+{
+    assert forall|f: FileId| #![trigger has_content(n, f)] #![trigger n.line_index_map@.contains_key(f)] #![trigger n.tree_map@.contains_key(f)]
+        (if has_content(n, f) {
+            &&& n.line_index_map@.contains_key(f)
+            &&& n.line_index_map@[f] == sp_line_index(content_of(n, f))
+            &&& n.tree_map@.contains_key(f)
+            &&& tree_of_text(n.tree_map@[f], content_of(n, f))
+        } else {
+            &&& !n.line_index_map@.contains_key(f)
+            &&& !n.tree_map@.contains_key(f)
+        }) by {
+        if f != fid {
+            assert(f.id != fid.id);
+            assert(n.line_index_map@.remove(fid).contains_key(f) == n.line_index_map@.contains_key(f));
+            assert(o.line_index_map@.remove(fid).contains_key(f) == o.line_index_map@.contains_key(f));
+            assert(n.tree_map@.remove(fid).contains_key(f) == n.tree_map@.contains_key(f));
+            assert(o.tree_map@.remove(fid).contains_key(f) == o.tree_map@.contains_key(f));
+            if (f.id as int) < n.file_data@.len() {
+                assert(n.file_data@[f.id as int] == (if (f.id as int) < o.file_data@.len() { o.file_data@[f.id as int] } else { None }));
+            }
+            assert(has_content(n, f) == has_content(o, f));
+            if has_content(n, f) {
+                assert(content_of(n, f) == content_of(o, f));
+                assert(n.line_index_map@.remove(fid)[f] == n.line_index_map@[f]);
+                assert(o.line_index_map@.remove(fid)[f] == o.line_index_map@[f]);
+                assert(n.tree_map@.remove(fid)[f] == n.tree_map@[f]);
+                assert(o.tree_map@.remove(fid)[f] == o.tree_map@[f]);
+            }
+        }
     }
 }
 
